@@ -53,6 +53,11 @@ type Block struct {
 	Ops   int    // state operations attempted by the block
 	Ret   int    // action return kind
 	NArgs int    // number of label arguments the body passes
+	// Nested: the block calls Parse of the same package on this input before it
+	// returns (an include / a sub-language), with NestedEntry as entrypoint when set;
+	// the nested result is discarded
+	Nested      *string
+	NestedEntry string
 }
 
 // Event is one code block invocation as seen by the block.
@@ -368,6 +373,8 @@ type RunOpts struct {
 	Statistics   bool
 	// TrackEvals asks for the (expression, offset) evaluation census (C06).
 	TrackEvals   bool
+	// UseReader: call ParseReader (an io.Reader over the input) instead of Parse.
+	UseReader    bool
 	// StatsPreload: the Stats object handed to Statistics already holds this
 	// ExprCnt (an object re-used from earlier parses).
 	StatsPreload uint64
@@ -401,6 +408,9 @@ type Obs struct {
 	ExprCnt  uint64 // only with Statistics
 	HasStats bool
 	Ticks    int
+	// raw is the value Parse returned (kept to canonicalise it AGAIN later: a value
+	// that aliases a buffer re-used by another call changes after the call returned)
+	raw any
 	// EvalRepeat / EvalCalls: see Ctx (only with RunOpts.TrackEvals)
 	EvalRepeat string `json:",omitempty"`
 	EvalCalls  int    `json:",omitempty"`
@@ -453,3 +463,9 @@ type Runtime interface {
 var Runtimes [16]Runtime
 
 func Register(i int, r Runtime) { Runtimes[i] = r }
+
+// SetRaw remembers the value returned by Parse.
+func (o *Obs) SetRaw(v any) { o.raw = v }
+
+// Recanon canonicalises the remembered value again.
+func (o *Obs) Recanon() string { return Canon(o.raw) }
